@@ -399,6 +399,26 @@ func (c *Ctx) Bin(op Op, a, b *Term) *Term {
 				return a
 			}
 		}
+		if op == OBVSub {
+			// (x + c) - x = c ; (x + c1) - (x + c2) = c1 - c2
+			if a.Op == OBVAdd {
+				if a.Args[0] == b {
+					return a.Args[1]
+				}
+				if a.Args[1] == b {
+					return a.Args[0]
+				}
+				if b.Op == OBVAdd {
+					for ai := 0; ai < 2; ai++ {
+						for bi := 0; bi < 2; bi++ {
+							if a.Args[ai] == b.Args[bi] && a.Args[1-ai].IsConst() && b.Args[1-bi].IsConst() {
+								return c.BVConst(a.Args[1-ai].Val-b.Args[1-bi].Val, w)
+							}
+						}
+					}
+				}
+			}
+		}
 		if a == b {
 			switch op {
 			case OBVULE, OBVSLE:
